@@ -45,20 +45,20 @@ type KnownFinding struct {
 // Stats collects what one test process explored for one property.
 type Stats struct {
 	mu          sync.Mutex
-	Property    string                  `json:"property"`
-	Evaluations int                     `json:"evaluations"`
-	Labels      map[string]int          `json:"labels"`
-	Nontrivial  map[string]struct{}     `json:"-"`
-	NontrivKeys []string                `json:"nontrivial_keys"`
-	Samples     []any                   `json:"samples"`
-	KnownHits   map[string]int          `json:"known_hits"`
-	Excluded    int                     `json:"excluded_by_known_finding"`
-	SelfCheck   int                     `json:"self_check_failures"`
-	Violations  map[string]*Violation   `json:"violations"`
-	Exhaustive  bool                    `json:"exhaustive"`
-	Extra       map[string]int          `json:"extra"`
-	Notes       []string                `json:"notes"`
-	Units       map[string]int          `json:"units"`
+	Property    string                `json:"property"`
+	Evaluations int                   `json:"evaluations"`
+	Labels      map[string]int        `json:"labels"`
+	Nontrivial  map[string]struct{}   `json:"-"`
+	NontrivKeys []string              `json:"nontrivial_keys"`
+	Samples     []any                 `json:"samples"`
+	KnownHits   map[string]int        `json:"known_hits"`
+	Excluded    int                   `json:"excluded_by_known_finding"`
+	SelfCheck   int                   `json:"self_check_failures"`
+	Violations  map[string]*Violation `json:"violations"`
+	Exhaustive  bool                  `json:"exhaustive"`
+	Extra       map[string]int        `json:"extra"`
+	Notes       []string              `json:"notes"`
+	Units       map[string]int        `json:"units"`
 	maxSamples  int
 }
 
